@@ -179,9 +179,15 @@ def search(ctx):
                 # a reader failure only matters where the tree is finite somewhere (e.g. 'zoo' lines are finite nowhere)
                 defined = 0
                 for xv, th in rec["points"]:
+                    # "finite" must not be an artefact of rounding: inv(x - inv(inv(x))) is undefined everywhere, but 1/(1/x) is
+                    # not exactly x in finite precision.  A point counts only if two working precisions agree on the value.
                     try:
-                        lo.eval_labels(labels, mp.mpf(xv), [mp.mpf(t) for t in th])
-                        defined += 1
+                        vals2 = []
+                        for dps in (30, 80):
+                            with mp.workdps(dps):
+                                vals2.append(lo.eval_labels(labels, mp.mpf(xv), [mp.mpf(t) for t in th]))
+                        if abs(vals2[0] - vals2[1]) <= mp.mpf(10) ** -12 * (1 + abs(vals2[1])):
+                            defined += 1
                     except lo.Undefined:
                         pass
                 if defined == 0:
